@@ -268,4 +268,7 @@ def run(ch: Checker) -> None:
     # ---------------- C12.7 (shared)
     ch.import_rules('C02', {'C02.2': 'C12.7'}, 'the request line the reverse-proxied origin reads is what HttpParser.build makes of the path the route chose')
     ch.import_rules('C02', {'C02.3': 'C12.13'}, 'the request reaches the reverse-proxied origin with its framing intact only if the rebuild does not add a Content-Length next to a Transfer-Encoding header')
+    from .common import plugin_load_check
+    ch.rule('C12.17', 'Plugins.load keeps every class the importer returns (in the order given) unless that very class object is already listed: membership of the class, never a comparison of class names -- otherwise a configured plugin and its routes silently vanish', 1)
+    plugin_load_check(ch, 'C12.17')
 
